@@ -58,6 +58,22 @@ theorem constants_agree :
     Sb31Consts.kdfRights = [0, 1, 2, 3] ∧ Sb31Consts.kdfKeyLens = [128, 256] ∧ Sb31Consts.kdfIterations = [1, 2] ∧
     Sb31Consts.kdfTwoBlockKeyLen = 256 ∧ Sb31Consts.kdfModeKdk = 1 ∧ Sb31Consts.kdfModeBlk = 2 := by decide
 
+/-- configuration glue: every YAML command name of `CFG_NAME_TO_CLASS` leads (through the class it names and the tag
+    that class passes) to the tag of the command it spells, and every class reads exactly the documented keys -/
+theorem config_names_agree :
+    Sb31Consts.cfgNameToTag = [("erase", 1), ("load", 2), ("execute", 3), ("call", 4), ("programFuses", 5),
+      ("programIFR", 6), ("loadCMAC", 7), ("copy", 8), ("loadHashLocking", 9), ("loadKeyBlob", 10),
+      ("configureMemory", 11), ("fillMemory", 12), ("checkFwVersion", 13), ("reset", 14)] ∧
+    Sb31Consts.cfgKeys = [("CmdCall", ["address"]), ("CmdConfigureMemory", ["configAddress", "memoryId"]),
+      ("CmdCopy", ["addressFrom", "addressTo", "memoryIdFrom", "memoryIdTo", "size"]),
+      ("CmdErase", ["address", "memoryId", "size"]), ("CmdExecute", ["address"]),
+      ("CmdFillMemory", ["address", "pattern", "size"]), ("CmdFwVersionCheck", ["counterId", "value"]),
+      ("CmdLoad", ["address", "authentication", "file", "memoryId", "value", "values"]),
+      ("CmdLoadCmac", ["address", "file", "memoryId"]), ("CmdLoadHashLocking", ["address", "file", "memoryId"]),
+      ("CmdLoadKeyBlob", ["family", "file", "offset", "plainInput", "wrappingKeyId"]),
+      ("CmdProgFuses", ["address", "values"]), ("CmdProgIfr", ["address", "file", "value", "values"]),
+      ("CmdReset", [])] := by decide
+
 /-- the small integer functions translated from the source -/
 theorem layout_functions (h old cert : Nat) :
     Sb31Consts.certBlockOffset h = 60 + h ∧ Sb31Consts.blockSize h = 260 + h ∧
@@ -100,6 +116,21 @@ theorem block_keys (c : CryptoOps) (s : ObjState) (hg : Good c s) (he : s.cfg.en
         (keyBitsOf s.cfg.hashLen) := by
   rw [kdf_eq c _ _ _ false _ (hg.rights he) (keyBitsOf_cases _), kdf_eq c _ _ _ true _ (hg.rights he) (keyBitsOf_cases _)]
   simp only [blockKey, hg.kdk he, hg.keyLen, Bool.false_eq_true, if_false, if_true]
+
+/-- KEY SEPARATION: two data blocks of a container are encrypted under the same key only if they are the same
+    block — otherwise two different KDF inputs with the same CMAC are exhibited -/
+theorem block_keys_distinct {c : CryptoOps} (hc : CryptoLaws c) (s : ObjState) (hg : Good c s) (he : s.cfg.encrypted = true)
+    (n m : Nat) (hn : n < 256 ^ 12) (hm : m < 256 ^ 12) (h : blockKey c s n = blockKey c s m) : n = m ∨ Break c := by
+  rw [block_keys c s hg he, block_keys c s hg he] at h
+  exact kdf_sep_const hc _ n m _ true _ hn hm h
+
+/-- the key derivation key (hence every block key) depends on the access rights and on the timestamp: equal KDKs
+    under different rights / timestamps exhibit a CMAC forgery -/
+theorem kdk_depends_on_rights_and_timestamp {c : CryptoOps} (hc : CryptoLaws c) (pck : Sb31.Bytes) (keyBits : Nat) :
+    (∀ ts r₁ r₂, r₁ < 4 → r₂ < 4 → kdf c pck ts r₁ false keyBits = kdf c pck ts r₂ false keyBits → r₁ = r₂ ∨ Break c) ∧
+    (∀ t₁ t₂ r, t₁ < 256 ^ 12 → t₂ < 256 ^ 12 → kdf c pck t₁ r false keyBits = kdf c pck t₂ r false keyBits → t₁ = t₂ ∨ Break c) :=
+  ⟨fun ts r₁ r₂ h₁ h₂ h => kdf_sep_rights hc pck ts r₁ r₂ false keyBits h₁ h₂ h,
+   fun t₁ t₂ r h₁ h₂ h => kdf_sep_const hc pck t₁ t₂ r false keyBits h₁ h₂ h⟩
 
 /-- a freshly constructed object satisfies the invariants -/
 theorem constructor_good (c : CryptoOps) (cfg : Cfg) (s : ObjState) (h : newObj c cfg = .ok s) :
